@@ -84,6 +84,31 @@ let handle (line : string) : string =
                put_res b r;
                Buffer.add_string b (Printf.sprintf "@%x" (int_of_big_nat off))) l;
            Buffer.contents b)
+  | "RC" :: _src :: _comp :: chunks :: reqs :: plains :: complens :: [] ->
+      (* the model of ReadCompressed: members = (compressed length, plaintext); the compressed bytes themselves only matter
+         through their number; the decompressor oracle is derived from the request sizes (any oracle gives the same answer) *)
+      let plains = List.map (fun h -> bytes_of_hex (if h = "" then "-" else h)) (String.split_on_char ',' plains) in
+      let lens = List.map int_of_big_nat (numlist complens) in
+      let members = List.map2 (fun p l -> { m_comp = List.init l (fun _ -> byte_tab.(0)); m_plain = p }) plains lens in
+      let reqs = numlist reqs in
+      let k = ref 7 in
+      let deco = List.init 400 (fun _ -> k := (!k * 1103515245 + 12345) land 0x3fffffff;
+                                 (big_nat (!k mod 5000), big_nat ((!k / 5000) mod 3000))) in
+      let total = List.fold_left (fun a p -> a + List.length p) 0 plains in
+      (* ask as often as the driver does: cycle the request sizes until three empty answers *)
+      let rec cycle acc n = if n = 0 then acc else cycle (acc @ reqs) (n - 1) in
+      let per = max 1 (List.fold_left (fun a r -> a + int_of_big_nat r) 0 reqs) in
+      let all = cycle [] (400 / max 1 (List.length reqs) + total / per + 4 * (List.length plains + 2)) in
+      (match rc_read_all all (rc_open members (numlist chunks) deco) with
+       | None -> "MODEL-ERROR"
+       | Some chunks ->
+           let h = ref 7 and tot = ref 0 and late = ref 0 and ended = ref false in
+           List.iter2 (fun r c ->
+               if c = [] then (if int_of_big_nat r > 0 then ended := true)
+               else begin
+                 if !ended then incr late;
+                 List.iter (fun x -> h := (!h * 257 + int_of_n x + 1) mod 2147483647; incr tot) c end) all chunks;
+           if not !ended then "MODEL-DID-NOT-REACH-END" else Printf.sprintf "%x %x %x" !tot !h !late)
   | _ -> "BADCMD"
 
 let () = each_line handle
